@@ -4,128 +4,531 @@ from __future__ import annotations
 import ast
 
 from ..core import Ctx
-from ..match import arg, call_name, calls, facts_at, local_defs, resolve, single_def, stores
-from ..model import AnalysisError, chain, const_value, enclosing_stmt, norm, strip_cast, walk_no_nested
+from ..match import (Fact, _atoms_with_polarity, arg, call_name, calls, expr_context_facts, fact_of, facts_at, is_param,
+                     local_defs, resolve, single_def, stores)
+from ..model import AnalysisError, ancestors, chain, const_value, enclosing_stmt, strip_cast, walk_no_nested
 
 LEVEL = "other"
 EXPLANATION = (
     "TunnelEndpoint.send depends on history only through its branch conditions, so classifying every effect site by "
-    "the facts that dominate it decides all histories: the raw socket send is reachable only under a falsy "
-    "settings.get(packet[:22], False); tunnel sends only under a READY circuit drawn from "
-    "find_circuits(exit_flags=[PEER_FLAG_EXIT_IPV8], hops=self.hops); otherwise queue (bounded deque) or drop. All "
-    "acyclic paths are enumerated and classified. Closed caller sets: raw endpoint.send inside TunnelEndpoint, no "
-    "`.endpoint.endpoint` reach-under, set_anonymity writers, opt-in in Community.__init__, delivery filter."
+    "the branch edges that every path to it must take decides all histories: the raw socket send is reachable only "
+    "over an edge on which the anonymity switch of packet[:22] is off (settings.get(prefix, False) falsy, prefix not "
+    "in settings, settings[prefix] falsy); tunnel sends only with the switch on and over a circuit that was drawn from "
+    "find_circuits(exit_flags=[PEER_FLAG_EXIT_IPV8], hops=self.hops) and tested READY after its last definition; "
+    "otherwise queue (bounded deque) or drop. All acyclic paths are enumerated and classified. Closed caller sets: raw "
+    "endpoint.send inside TunnelEndpoint, no `.endpoint.endpoint` reach-under, set_anonymity writers, opt-in in "
+    "Community.__init__, delivery filter; Circuit.exit_flags reads the flags of the last hop."
 )
 
 EP = "ipv8/messaging/anonymization/endpoint.py"
+TUNNEL = "ipv8/messaging/anonymization/tunnel.py"
+
+ON, OFF = "on", "off"
+
+# calls that neither send nor store anything
+_PURE = {"bool", "len", "isinstance", "next", "iter", "list", "tuple", "set", "getattr", "hasattr", "cast", "reversed", "sorted",
+         "self.settings.get"}
+_LOG_PREFIX = ("self.logger.", "self._logger.", "logger.", "logging.")
+_MUTATORS = {"append", "extend", "insert", "remove", "pop", "clear", "sort", "reverse", "add", "discard", "update", "__setitem__",
+             "__delitem__"}
 
 
-def rule_send(ctx: Ctx) -> None:
+# ------------------------------------------------------------------------------------ small semantic helpers
+def _achain(fi, e, depth: int = 6) -> str | None:
+    """dotted chain of a Name/Attribute expression after following single-assignment locals that alias a Name/Attribute chain"""
+    if e is None:
+        return None
+    e = strip_cast(e)
+    if isinstance(e, ast.Name):
+        d = single_def(fi, e.id)
+        if depth > 0 and d is not None and d[1] is None and isinstance(strip_cast(d[0]), (ast.Name, ast.Attribute)):
+            return _achain(fi, d[0], depth - 1)
+        return e.id
+    if isinstance(e, ast.Attribute):
+        b = _achain(fi, e.value, depth)
+        return None if b is None else b + "." + e.attr
+    return None
+
+
+def _unbool(e):
+    """bool(x) has the truth value of x"""
+    e = strip_cast(e)
+    while isinstance(e, ast.Call) and isinstance(e.func, ast.Name) and e.func.id == "bool" and len(e.args) == 1 and not e.keywords:
+        e = strip_cast(e.args[0])
+    return e
+
+
+def _is_none(e) -> bool:
+    return isinstance(e, ast.Constant) and e.value is None
+
+
+def _falsy_default(e) -> bool:
+    return isinstance(e, ast.Constant) and (e.value is None or e.value is False or (type(e.value) is int and e.value == 0))
+
+
+def _mutated(fi, name: str) -> bool:
+    """is the local `name` changed in place (method call / item store / augmented assignment)"""
+    for n in walk_no_nested(fi.node):
+        if isinstance(n, ast.Call) and isinstance(n.func, ast.Attribute) and isinstance(n.func.value, ast.Name) \
+                and n.func.value.id == name and n.func.attr in _MUTATORS:
+            return True
+        if isinstance(n, ast.Subscript) and isinstance(n.ctx, (ast.Store, ast.Del)) and isinstance(n.value, ast.Name) and n.value.id == name:
+            return True
+        if isinstance(n, ast.AugAssign) and isinstance(n.target, ast.Name) and n.target.id == name:
+            return True
+    return False
+
+
+def _all_of(vals):
+    s = set(vals) - {None}
+    return s.pop() if len(s) == 1 else None
+
+
+def _expand(fi, facts: list[Fact], depth: int = 3) -> list[Fact]:
+    """facts plus what they imply when a tested local is a single-assignment boolean expression (`ok = a and b; if ok:`)"""
+    out = []
+    for f in facts:
+        out.append(f)
+        if f.op != "truthy" or depth <= 0:
+            continue
+        x = _unbool(f.left)
+        if isinstance(x, ast.Name):
+            d = single_def(fi, x.id)
+            v = _unbool(d[0]) if d is not None and d[1] is None else None
+            if isinstance(v, (ast.BoolOp, ast.UnaryOp, ast.Compare)):
+                out.extend(_expand(fi, _atoms_with_polarity(v, f.pos), depth - 1))
+        elif x is not f.left:
+            out.extend(_expand(fi, _atoms_with_polarity(x, f.pos), depth - 1))
+    return out
+
+
+def _edge_facts(fi, u, lab) -> list[Fact]:
+    if u.kind != "cond" or not (lab is True or lab is False):
+        return []
+    return _expand(fi, _atoms_with_polarity(u.ast, lab))
+
+
+def _nodes(cfg, site):
+    return [n for n in cfg.nodes_for(site) if cfg.reachable(n)]
+
+
+class _Switch:
+    """
+    Recognises reads of the anonymity switch of *this* packet: self.settings.get(K[, falsy default]) / self.settings[K] /
+    K in self.settings with K = packet[:22], through local aliases, bool(), negation and and/or combinations.
+    """
+
+    def __init__(self, fi, packet: str) -> None:
+        self.fi = fi
+        self.packet = packet
+        self.alias_stmts: list[ast.stmt] = []   # definitions of the locals through which the switch is read
+
+    def _follow(self, e):
+        e = strip_cast(e)
+        sts = []
+        n = 0
+        while isinstance(e, ast.Name) and n < 4:
+            d = single_def(self.fi, e.id)
+            if d is None or d[1] is not None:
+                break
+            sts.append(local_defs(self.fi, e.id)[0][0])
+            e = strip_cast(d[0])
+            n += 1
+        return e, sts
+
+    def _commit(self, sts) -> None:
+        for st in sts:
+            if st not in self.alias_stmts:
+                self.alias_stmts.append(st)
+
+    def is_key(self, e) -> bool:
+        k, sts = self._follow(e)
+        if not (isinstance(k, ast.Subscript) and isinstance(k.slice, ast.Slice)):
+            return False
+        s = k.slice
+        ok = _achain(self.fi, k.value) == self.packet and (s.lower is None or const_value(s.lower) == 0) \
+            and s.upper is not None and const_value(s.upper) == 22 and (s.step is None or const_value(s.step) == 1)
+        if ok:
+            self._commit(sts)
+        return ok
+
+    def is_table(self, e) -> bool:
+        return _achain(self.fi, e) == "self.settings"
+
+    def read(self, e) -> bool:
+        e = _unbool(e)
+        if isinstance(e, ast.Name):
+            r, sts = self._follow(e)
+            if r is not e and not isinstance(r, ast.Name) and self.read(r):
+                self._commit(sts)
+                return True
+            return False
+        if isinstance(e, ast.Call) and isinstance(e.func, ast.Attribute) and e.func.attr == "get" and self.is_table(e.func.value) \
+                and not e.keywords and 1 <= len(e.args) <= 2 and not any(isinstance(a, ast.Starred) for a in e.args):
+            return self.is_key(e.args[0]) and (len(e.args) == 1 or _falsy_default(e.args[1]))
+        if isinstance(e, ast.Subscript) and isinstance(e.ctx, ast.Load) and self.is_table(e.value):
+            return self.is_key(e.slice)
+        return False
+
+    def fact_val(self, f: Fact, depth: int = 3):
+        """ON / OFF when the fact decides the switch, None otherwise"""
+        if f.op == "truthy":
+            x = _unbool(f.left)
+            if self.read(x):
+                return ON if f.pos else OFF
+            if isinstance(x, ast.Name) and depth > 0:
+                r, sts = self._follow(x)
+                if isinstance(r, (ast.BoolOp, ast.UnaryOp, ast.Compare)):
+                    v = self.implies(r, f.pos, depth - 1)
+                    if v is not None:
+                        self._commit(sts)
+                    return v
+            return None
+        if f.op == "in":
+            if not f.pos and self.is_key(f.left) and self.is_table(f.right):
+                return OFF          # no entry: get(..., falsy) is falsy
+            return None
+        if f.op in ("is", "eq") and f.pos:
+            for a, b in ((f.left, f.right), (f.right, f.left)):
+                if isinstance(b, ast.Constant) and isinstance(b.value, bool) and self.read(a):
+                    return ON if b.value else OFF
+        return None
+
+    def implies(self, e, pol: bool, depth: int = 3):
+        """value of the switch implied by `e` being truthy (pol) / falsy (not pol), short-circuit order respected"""
+        e = _unbool(e)
+        if isinstance(e, ast.UnaryOp) and isinstance(e.op, ast.Not):
+            return self.implies(e.operand, not pol, depth)
+        if isinstance(e, ast.BoolOp):
+            if isinstance(e.op, ast.And) == pol:      # `and` known true / `or` known false: every operand has that value
+                return _all_of([self.implies(v, pol, depth) for v in e.values])
+            alts = []
+            for i, v in enumerate(e.values):          # operand i decided it: all earlier ones had the other value
+                alts.append(_all_of([self.implies(w, not pol, depth) for w in e.values[:i]] + [self.implies(v, pol, depth)]))
+            return alts[0] if alts and all(a == alts[0] for a in alts) else None
+        return self.fact_val(fact_of(e, pol), depth)
+
+    def edge(self, u, lab):
+        if u.kind != "cond" or not (lab is True or lab is False):
+            return None
+        return self.implies(u.ast, lab)
+
+    def dominated(self, cfg, site, want: str) -> bool:
+        """every path entry -> site takes an edge on which the switch is `want` (or the expression context says so)"""
+        if any(self.fact_val(f) == want for f in expr_context_facts(site)):
+            return True
+        ns = _nodes(cfg, site)
+        return all(cfg.must_pass_edges(n, lambda u, v, lab: self.edge(u, lab) == want) for n in ns)
+
+
+class _Source:
+    """Is a circuit variable drawn (only) from find_circuits(exit_flags ⊇ [PEER_FLAG_EXIT_IPV8], hops=self.hops) of the tunnel overlay?"""
+
+    SIG = ["ctype", "state", "exit_flags", "hops"]
+
+    def __init__(self, fi) -> None:
+        self.fi = fi
+        self.finds = 0
+
+    def pick(self, e, depth: int = 6) -> bool:
+        e = strip_cast(e)
+        if depth <= 0:
+            return False
+        if _is_none(e):
+            return True
+        if isinstance(e, ast.IfExp):
+            return self.pick(e.body, depth - 1) and self.pick(e.orelse, depth - 1)
+        if isinstance(e, ast.Subscript) and not isinstance(e.slice, ast.Slice) and isinstance(const_value(e.slice), int):
+            return self.lst(e.value, depth - 1)
+        if isinstance(e, ast.Call) and chain(e.func) == "next" and not e.keywords and 1 <= len(e.args) <= 2 \
+                and (len(e.args) == 1 or _is_none(e.args[1])):
+            it = strip_cast(e.args[0])
+            if isinstance(it, ast.Call) and chain(it.func) == "iter" and len(it.args) == 1:
+                return self.lst(it.args[0], depth - 1)
+            return False
+        if isinstance(e, ast.Name):
+            return self.name_pick(e.id, depth - 1)
+        return False
+
+    def name_pick(self, name: str, depth: int) -> bool:
+        if is_param(self.fi, name):
+            return False
+        defs = local_defs(self.fi, name)
+        if not defs:
+            return False
+        for st, v, idx in defs:
+            if idx is not None:
+                return False
+            if v is None:
+                if isinstance(st, ast.For) and isinstance(st.target, ast.Name) and st.target.id == name and self.lst(st.iter, depth):
+                    continue
+                return False
+            if not self.pick(v, depth):
+                return False
+        return True
+
+    def lst(self, e, depth: int) -> bool:
+        e = strip_cast(e)
+        if depth <= 0:
+            return False
+        if isinstance(e, (ast.List, ast.Tuple)) and not e.elts:
+            return True
+        if isinstance(e, ast.BoolOp):
+            return all(self.lst(v, depth - 1) for v in e.values)
+        if isinstance(e, ast.IfExp):
+            return self.lst(e.body, depth - 1) and self.lst(e.orelse, depth - 1)
+        if isinstance(e, ast.Subscript) and isinstance(e.slice, ast.Slice):
+            return self.lst(e.value, depth - 1)
+        if isinstance(e, ast.Call):
+            if call_name(e) == "find_circuits" and isinstance(e.func, ast.Attribute):
+                return self.find_ok(e)
+            if chain(e.func) in ("list", "tuple", "sorted", "reversed") and e.args:
+                return self.lst(e.args[0], depth - 1)
+            return False
+        if isinstance(e, ast.Name):
+            if is_param(self.fi, e.id) or _mutated(self.fi, e.id):
+                return False
+            defs = local_defs(self.fi, e.id)
+            return bool(defs) and all(idx is None and v is not None and self.lst(v, depth - 1) for _, v, idx in defs)
+        return False
+
+    def find_ok(self, fc: ast.Call) -> bool:
+        fi = self.fi
+        if any(isinstance(a, ast.Starred) for a in fc.args) or any(k.arg is None for k in fc.keywords):
+            return False
+
+        def a(name):
+            return arg(fc, self.SIG.index(name), name)
+        ef = a("exit_flags")
+        if isinstance(strip_cast(ef), ast.Name) if ef is not None else False:
+            if _mutated(fi, strip_cast(ef).id):
+                return False
+            ef = resolve(fi, ef)
+        ef_ok = isinstance(ef, (ast.List, ast.Tuple, ast.Set)) and any(_achain(fi, x) == "PEER_FLAG_EXIT_IPV8" for x in ef.elts)
+        hp_ok = _achain(fi, a("hops")) == "self.hops"
+        ct = a("ctype")
+        ct_ok = ct is None or _achain(fi, ct) == "CIRCUIT_TYPE_DATA"
+        recv_ok = _achain(fi, fc.func.value) == "self.tunnel_community"
+        ok = bool(ef_ok and hp_ok and ct_ok and recv_ok)
+        if ok:
+            self.finds += 1
+        return ok
+
+
+def _queue_nonempty_fact(fi, f: Fact) -> bool:
+    """does the fact say that self.send_queue is not empty"""
+    def is_q(e):
+        return _achain(fi, e) == "self.send_queue"
+
+    def is_len(e):
+        e = strip_cast(e)
+        return isinstance(e, ast.Call) and chain(e.func) == "len" and len(e.args) == 1 and not e.keywords and is_q(e.args[0])
+    if f.op == "truthy":
+        return f.pos and (is_q(_unbool(f.left)) or is_len(_unbool(f.left)))
+    if f.op == "lt":
+        return (f.pos and const_value(f.left) == 0 and is_len(f.right)) or (not f.pos and is_len(f.left) and const_value(f.right) == 1)
+    if f.op == "eq":
+        return not f.pos and ((is_len(f.left) and const_value(f.right) == 0) or (is_len(f.right) and const_value(f.left) == 0))
+    return False
+
+
+def _raw_helpers(repo, te) -> dict:
+    """
+    Private TunnelEndpoint methods (other than send) that hand two of their own, never rebound, parameters to the raw socket
+    and are called from TunnelEndpoint.send only: name -> (FuncInfo, (index of the address param, index of the packet param)).
+    Their call sites in send are judged exactly like a raw send there.
+    """
+    out = {}
+    for name, hf in te.methods.items():
+        if name == "send" or not name.startswith("_") or name.startswith("__"):
+            continue
+        rc = calls(hf, "self.endpoint.send")
+        if not rc:
+            continue
+        callers = [f for _, f, _ in repo.callers_of_name(name)]
+        if not callers or any(f is None or f.qualname != "TunnelEndpoint.send" for f in callers):
+            continue
+        ps = hf.params()
+        idx = set()
+        for c in rc:
+            a0, a1 = _achain(hf, arg(c, 0, "socket_address")), _achain(hf, arg(c, 1, "packet"))
+            if a0 in ps and a1 in ps and not local_defs(hf, a0) and not local_defs(hf, a1):
+                idx.add((ps.index(a0), ps.index(a1)))
+            else:
+                idx.add(None)
+        if len(idx) == 1 and None not in idx:
+            out[name] = (hf, idx.pop())
+    return out
+
+
+def _helper_arg(hf, call: ast.Call, pindex: int):
+    """expression bound to parameter #pindex (0 = self) of method hf at `self.hf(...)`"""
+    return arg(call, pindex - 1, hf.params()[pindex])
+
+
+def _effects(te, hf, seen: frozenset) -> set:
+    """kinds of send / queue / table effects a TunnelEndpoint method can have (transitively through self.<method> calls)"""
+    out = set()
+    for c in calls(hf):
+        ch = _achain(hf, c.func) or chain(c.func) or ""
+        nm = call_name(c)
+        if ch == "self.endpoint.send":
+            out.add("RAW")
+        elif nm == "send_data":
+            out.add("TUNNEL")
+        elif nm in ("find_circuits", "create_circuit"):
+            out.add("CIRCUIT")
+        elif ch in _PURE or ch.startswith(_LOG_PREFIX):
+            continue
+        elif ch.startswith("self.send_queue."):
+            out.add("QUEUE")
+        elif ch.startswith("self.settings."):
+            out.add("TABLE")
+        elif ch.startswith("self.") and ch.count(".") == 1 and nm in te.methods:
+            if nm not in seen:
+                out |= _effects(te, te.methods[nm], seen | {nm})
+        else:
+            out.add("OTHER " + ch)
+    if stores(hf, lambda c_: c_.startswith("self.")):
+        out.add("STORE")
+    return out
+
+
+# ------------------------------------------------------------------------------------ rules
+def rule_send(ctx: Ctx) -> None:  # noqa: C901, PLR0912, PLR0915
     repo = ctx.repo
+    te = repo.cls("TunnelEndpoint", EP)
     fi = repo.method("TunnelEndpoint", "send", EP)
     cfg = ctx.cfg(fi)
     params = fi.params()
     addr, packet = params[1], params[2]
+    sw = _Switch(fi, packet)
+    helpers = _raw_helpers(repo, te)
 
-    def is_switch(e) -> bool:
-        e = strip_cast(e)
-        if not (isinstance(e, ast.Call) and chain(e.func) == "self.settings.get" and len(e.args) == 2):
-            return False
-        k = resolve(fi, e.args[0])
-        d = e.args[1]
-        key_ok = isinstance(k, ast.Subscript) and chain(k.value) == packet and isinstance(k.slice, ast.Slice) \
-            and k.slice.lower is None and const_value(k.slice.upper) == 22
-        return key_ok and isinstance(d, ast.Constant) and d.value is False
+    def eff_chain(c: ast.Call) -> str:
+        return _achain(fi, c.func) or chain(c.func) or ""
 
-    raw = ctx.anchor(calls(fi, "self.endpoint.send"), "raw send in TunnelEndpoint.send")
-    for c in raw:
+    def helper_of(c: ast.Call):
+        ch = chain(c.func) or ""
+        return helpers.get(ch[5:]) if ch.startswith("self.") and ch.count(".") == 1 else None
+
+    # ---- RAW sites: self.endpoint.send(...) and calls of raw-sending private helpers
+    raw_sites = []          # (call, address expr, packet expr)
+    for c in calls(fi):
+        if eff_chain(c) == "self.endpoint.send":
+            raw_sites.append((c, arg(c, 0, "socket_address"), arg(c, 1, "packet")))
+        elif helper_of(c) is not None:
+            hf, (ia, ip) = helper_of(c)
+            raw_sites.append((c, _helper_arg(hf, c, ia), _helper_arg(hf, c, ip)))
+    ctx.anchor(raw_sites, "raw send in TunnelEndpoint.send")
+    for c, a_expr, p_expr in raw_sites:
         facts = facts_at(cfg, c)
-        ok = any(f.op == "truthy" and not f.pos and is_switch(f.left) for f in facts)
-        # the packet classified is the packet sent, before any rebinding of `packet`
-        sent = arg(c, 1)
-        ok_pkt = chain(sent) == packet and chain(arg(c, 0)) == addr
+        ok = sw.dominated(cfg, c, OFF)
+        ok_pkt = _achain(fi, p_expr) == packet and _achain(fi, a_expr) == addr
         ctx.check(ok and ok_pkt, "send-classification", fi, c,
                   "RAW: endpoint.send only under falsy settings.get(packet[:22], False) for that very packet",
                   "a packet of an anonymized overlay can be handed to the raw socket", [str(f) for f in facts])
-        # no rebinding of packet/prefix before the switch on this path
-        defs_before = [d for d in local_defs(fi, packet) if d[0].lineno < c.lineno]
-        ctx.check(not defs_before, "send-classification", fi, c, "packet not rebound before the raw-send decision",
+    # the packet that was classified is the packet that is sent: no rebinding of packet / address (or of the locals the switch is
+    # read through) can reach the switch test or the raw send
+    sensitive = set()
+    for c, _, _ in raw_sites:
+        sensitive.update(cfg.nodes_for(c))
+    for n in cfg.nodes:
+        if n.kind == "cond" and any(sw.edge(n, lab) is not None for lab in (True, False)):
+            sensitive.add(n)
+    for st in sw.alias_stmts:
+        sensitive.update(cfg.nodes_for(st))
+    rebinds = [d[0] for p in (packet, addr) for d in local_defs(fi, p)]
+    for c, _, _ in raw_sites:
+        bad = None
+        for st in rebinds:
+            starts = [v for n in cfg.nodes_for(st) for v, lab in n.succ if lab != "exc"]
+            if starts and sensitive & cfg.reach(starts):
+                bad = st
+        ctx.check(bad is None, "send-classification", fi, c, "packet not rebound before the raw-send decision",
                   "the packet is rebound before the anonymity switch is evaluated")
 
+    # ---- TUNNEL sites
     tun = ctx.anchor([c for c in calls(fi) if call_name(c) == "send_data"], "send_data in TunnelEndpoint.send")
     for c in tun:
-        facts = facts_at(cfg, c)
-        sw = any(f.op == "truthy" and f.pos and is_switch(f.left) for f in facts)
-        circ_expr = arg(c, 0)
-        # circuit variable
-        base = circ_expr
-        while isinstance(base, ast.Attribute):
-            base = base.value
-        cname = base.id if isinstance(base, ast.Name) else None
-        ready = any(f.op == "eq" and f.pos and {norm(f.left), norm(f.right)} == {f"{cname}.state", "CIRCUIT_STATE_READY"} for f in facts)
-        nonnull = any(f.op == "truthy" and f.pos and chain(f.left) == cname for f in facts)
-        ok_addr = norm(circ_expr) == f"{cname}.hop.address"
-        cid = resolve(fi, arg(c, 1))
-        ok_cid = norm(cid) == f"{cname}.circuit_id"
-        # where does the circuit come from
-        src_ok = False
-        d = single_def(fi, cname) if cname else None
-        if d is not None:
-            v = strip_cast(d[0])
-            lst = None
-            if isinstance(v, ast.IfExp) and isinstance(v.body, ast.Subscript) and const_value(v.body.slice) == 0 \
-                    and isinstance(v.orelse, ast.Constant) and v.orelse.value is None:
-                lst = v.body.value
-            elif isinstance(v, ast.Subscript) and const_value(v.slice) == 0:
-                lst = v.value
-            if lst is not None:
-                fc = resolve(fi, lst)
-                if isinstance(fc, ast.Call) and call_name(fc) == "find_circuits":
-                    ef = arg(fc, None, "exit_flags")
-                    hp = arg(fc, None, "hops")
-                    recv = resolve(fi, fc.func.value)
-                    src_ok = (ef is not None and isinstance(ef, (ast.List, ast.Tuple)) and len(ef.elts) == 1
-                              and chain(ef.elts[0]) == "PEER_FLAG_EXIT_IPV8"
-                              and hp is not None and chain(hp) == "self.hops"
-                              and chain(recv) == "self.tunnel_community"
-                              and arg(fc, None, "ctype") is None)
-        dest = arg(c, 2)
-        origin = arg(c, 3)
-        ok_args = origin is not None and const_value(origin) == ("0.0.0.0", 0) and isinstance(dest, ast.Name)
-        recv_ok = chain(resolve(fi, c.func.value)) == "self.tunnel_community"
-        ctx.check(sw and ready and nonnull and ok_addr and ok_cid and src_ok and ok_args and recv_ok, "send-classification", fi, c,
+        facts = _expand(fi, facts_at(cfg, c))
+        sw_on = sw.dominated(cfg, c, ON)
+        target = _achain(fi, arg(c, 0, "target")) or ""
+        parts = target.split(".")
+        cname = parts[0] if len(parts) == 3 and parts[1:] == ["hop", "address"] and parts[0] != "self" else None
+        ok_addr = cname is not None
+
+        def is_ready(f: Fact, cname=cname) -> bool:
+            return f.op == "eq" and f.pos and {_achain(fi, f.left), _achain(fi, f.right)} == {f"{cname}.state", "CIRCUIT_STATE_READY"}
+        ready = ok_addr and any(is_ready(f) for f in facts)
+        nonnull = ok_addr and any((f.op == "truthy" and f.pos and _achain(fi, _unbool(f.left)) == cname)
+                                  or (f.op == "is" and not f.pos and ((_is_none(f.right) and _achain(fi, f.left) == cname)
+                                                                      or (_is_none(f.left) and _achain(fi, f.right) == cname)))
+                                  for f in facts)
+        ok_cid = ok_addr and _achain(fi, arg(c, 1, "circuit_id")) == f"{cname}.circuit_id"
+        # the circuit comes from find_circuits(EXIT_IPV8, hops=self.hops) and is tested READY after its last (re)definition
+        src_ok = fresh = False
+        if ok_addr:
+            src = _Source(fi)
+            src_ok = src.name_pick(cname, 6) and src.finds > 0
+            fresh = True
+            for st, _, _ in local_defs(fi, cname):
+                starts = [v for n in cfg.nodes_for(st) for v, lab in n.succ if lab != "exc"]
+                r = cfg.reach(starts, cut_edge=lambda u, v, lab: any(is_ready(f) for f in _edge_facts(fi, u, lab)))
+                if any(n in r for n in cfg.nodes_for(c)):
+                    fresh = False
+        dest = resolve(fi, arg(c, 2, "dest_address"))
+        origin = resolve(fi, arg(c, 3, "source_address"))
+        ok_args = origin is not None and const_value(origin) == ("0.0.0.0", 0) and dest is not None \
+            and (isinstance(dest, ast.Name) or (isinstance(dest, ast.Subscript) and isinstance(dest.value, ast.Name)))
+        recv_ok = isinstance(c.func, ast.Attribute) and _achain(fi, c.func.value) == "self.tunnel_community"
+        ctx.check(sw_on and ready and fresh and nonnull and ok_addr and ok_cid and src_ok and ok_args and recv_ok,
+                  "send-classification", fi, c,
                   "TUNNEL: send_data only over a READY circuit from find_circuits(exit_flags=[EXIT_IPV8], hops=self.hops)",
                   f"tunnel send is not restricted to a ready IPv8-exit circuit of the configured length "
-                  f"(switch={sw} ready={ready} nonnull={nonnull} first_hop={ok_addr} circuit_id={ok_cid} source={src_ok} args={ok_args} receiver={recv_ok})",
+                  f"(switch={sw_on} ready={ready and fresh} nonnull={nonnull} first_hop={ok_addr} circuit_id={ok_cid} source={src_ok} "
+                  f"args={ok_args} receiver={recv_ok})",
                   [str(f) for f in facts])
-    # drain loop: items come from send_queue.popleft()
-    for c in tun:
-        st = enclosing_stmt(c)
-        loop = next((a for a in _ancestors(st) if isinstance(a, ast.While)), None)
-        if loop is not None:
-            ctx.check(chain(loop.test) == "self.send_queue", "send-classification", fi, loop,
-                      "queue drain loops while self.send_queue", "drain loop condition is not the send queue")
-
-    # every effect call in send is one of RAW / TUNNEL / QUEUE / create_circuit / find_circuits
-    allowed = {"self.endpoint.send", "self.settings.get", "self.send_queue.append", "self.send_queue.popleft"}
+    # drain: items are taken from the queue only while it is not empty (the test may be the loop condition or a guard in the loop)
     for c in calls(fi):
-        ch = chain(c.func) or ""
-        ok = ch in allowed or call_name(c) in ("send_data", "find_circuits", "create_circuit")
+        if eff_chain(c) not in ("self.send_queue.popleft", "self.send_queue.pop"):
+            continue
+        loop = next((a for a in ancestors(enclosing_stmt(c)) if isinstance(a, ast.While)), None)
+        facts = facts_at(cfg, c)
+        ctx.check(any(_queue_nonempty_fact(fi, f) for f in _expand(fi, facts)), "send-classification", fi, loop if loop is not None else c,
+                  "queue drain loops while self.send_queue", "drain loop condition is not the send queue", [str(f) for f in facts])
+
+    # ---- every call in send is RAW / TUNNEL / QUEUE / circuit management / free of effects
+    allowed = {"self.endpoint.send", "self.send_queue.append", "self.send_queue.popleft", "self.send_queue.pop"}
+    undecided = []
+    for c in calls(fi):
+        ch = eff_chain(c)
+        ok = ch in allowed or ch in _PURE or ch.startswith(_LOG_PREFIX) or call_name(c) in ("send_data", "find_circuits", "create_circuit") \
+            or helper_of(c) is not None
+        if not ok and ch.startswith("self.") and ch.count(".") == 1 and call_name(c) in te.methods and call_name(c) != "send":
+            eff = _effects(te, te.methods[call_name(c)], frozenset({call_name(c)}))
+            if not eff:
+                ok = True       # a helper that neither sends, queues nor stores
+            elif not any(e.startswith("OTHER") or e == "RAW" for e in eff):
+                undecided.append(f"undecided: TunnelEndpoint.send routes through helper `{ch}` ({', '.join(sorted(eff))}) that could not be inlined")
+                continue
         ctx.check(ok, "send-classification", fi, c, f"effect `{ch}` is RAW/TUNNEL/QUEUE/circuit management",
                   f"TunnelEndpoint.send has an unclassified effect `{ch}`")
-    # path enumeration: classify terminal effect of every path
+
+    # ---- path enumeration: classify the effects of every path
     paths = cfg.paths()
     kinds = {}
     for p in paths:
         eff = []
         sw_val = None
         for node, lab in p:
-            if node.kind == "cond" and is_switch(node.ast):
-                sw_val = lab
-            if node.ast is not None and node.kind == "stmt":
+            v = sw.edge(node, lab)
+            if v is not None:
+                sw_val = v == ON
+            if node.ast is not None and node.kind in ("stmt", "cond"):
                 for c in [x for x in ast.walk(node.ast) if isinstance(x, ast.Call)]:
-                    ch = chain(c.func) or ""
-                    if ch == "self.endpoint.send":
+                    ch = eff_chain(c)
+                    if ch == "self.endpoint.send" or helper_of(c) is not None:
                         eff.append("RAW")
                     elif call_name(c) == "send_data":
                         eff.append("TUNNEL")
@@ -142,11 +545,8 @@ def rule_send(ctx: Ctx) -> None:
                           f"a path of TunnelEndpoint.send with anonymity switch={sw_val} has effects {cls}")
     ctx.extra["send_paths"] = {f"anonymize={k[0]} effect={k[1]}": v for k, v in sorted(kinds.items(), key=str)}
     ctx.floor("send-classification.paths", len(paths), 5)
-
-
-def _ancestors(n):
-    from ..model import ancestors
-    return ancestors(n)
+    if undecided:
+        raise AnalysisError(undecided[0])
 
 
 def rule_queue(ctx: Ctx) -> None:
@@ -159,12 +559,16 @@ def rule_queue(ctx: Ctx) -> None:
     ctx.anchor(writes, "send_queue assignment")
     for fi, st in writes:
         v = strip_cast(st.value) if getattr(st, "value", None) is not None else None
-        ok = fi.name == "__init__" and isinstance(v, ast.Call) and chain(v.func) == "deque"
-        ml = arg(v, None, "maxlen") if ok else None
+        if isinstance(v, ast.Name):
+            v = resolve(fi, v)
+        ok = fi.name == "__init__" and isinstance(v, ast.Call) and (chain(v.func) or "").split(".")[-1] == "deque"
+        ml = arg(v, 1, "maxlen") if ok else None
         mlv = repo.resolve_const(fi.module, ml, fi.cls) if ml is not None else None
-        ok = ok and isinstance(mlv, int) and mlv > 0
+        ok = ok and isinstance(mlv, int) and not isinstance(mlv, bool) and mlv > 0
         ctx.check(ok, "bounded-queue", fi, st, "send_queue = deque(maxlen=<positive constant>) assigned once in __init__",
                   "the queue of packets waiting for a circuit is unbounded or rebound")
+    ctx.check(len([1 for fi, _ in writes if fi.name == "__init__"]) <= 1, "bounded-queue", te.where, "send_queue",
+              "send_queue assigned once", "the queue of packets waiting for a circuit is rebound")
     for m, fi, a in repo.attribute_uses("send_queue"):
         ctx.check(fi is not None and fi.cls is te, "bounded-queue", fi or m.relpath, a, "send_queue used only inside TunnelEndpoint",
                   "send_queue is accessed from outside TunnelEndpoint")
@@ -173,11 +577,16 @@ def rule_queue(ctx: Ctx) -> None:
 def rule_who(ctx: Ctx) -> None:
     repo = ctx.repo
     te = repo.cls("TunnelEndpoint", EP)
+    helpers = _raw_helpers(repo, te)
     n = 0
     for fi in [f for f in repo.all_functions() if f.cls is te]:
-        for c in calls(fi, "self.endpoint.send"):
+        for c in calls(fi):
+            if (_achain(fi, c.func) or chain(c.func)) != "self.endpoint.send":
+                continue
             n += 1
-            ctx.check(fi.qualname == "TunnelEndpoint.send", "raw-send", fi, c, "raw endpoint.send only in TunnelEndpoint.send",
+            # a private helper called from send only is judged at its call sites in send (send-classification)
+            ok = fi.qualname == "TunnelEndpoint.send" or (fi.qualname == f"TunnelEndpoint.{fi.name}" and fi.name in helpers)
+            ctx.check(ok, "raw-send", fi, c, "raw endpoint.send only in TunnelEndpoint.send",
                       "the wrapped endpoint's send is called outside the anonymity switch")
         # handing out the raw endpoint's bound send method
         for a in walk_no_nested(fi.node):
@@ -198,16 +607,127 @@ def rule_who(ctx: Ctx) -> None:
               "TunnelEndpoint has no attribute forwarding", "TunnelEndpoint forwards unknown attributes to the raw endpoint")
 
 
-def rule_opt_in(ctx: Ctx) -> None:
+def _is_true(e) -> bool:
+    return isinstance(e, ast.Constant) and e.value is True
+
+
+def _is_false(e) -> bool:
+    return isinstance(e, ast.Constant) and e.value is False
+
+
+def _delivery_filter(ctx: Ctx, nl) -> None:
+    """
+    Path-sensitive: on every path to _deliver_later(listener, ...) the tests taken since the listener was bound say that
+    getattr(listener, "anonymize", False) equals from_tunnel (one equality test, or both truth values known and equal).
+    """
+    cfgn = ctx.cfg(nl)
+    from_tunnel = nl.params()[2]
+    dl = ctx.anchor([c for c in calls(nl) if call_name(c) == "_deliver_later"], "_deliver_later in TunnelEndpoint.notify_listeners")
+
+    def is_anon(e, listener) -> bool:
+        e = _unbool(resolve(nl, e))
+        return isinstance(e, ast.Call) and chain(e.func) == "getattr" and len(e.args) == 3 and not e.keywords \
+            and const_value(e.args[1]) == "anonymize" and _falsy_default(e.args[2]) and _achain(nl, e.args[0]) == listener
+
+    def is_ft(e) -> bool:
+        return _achain(nl, _unbool(e)) == from_tunnel
+
+    def state_of(fs: list[Fact], listener):
+        """(equality known, anonymize value, from_tunnel value) from a list of facts; None when the facts contradict each other"""
+        eqs, avs, tvs = set(), set(), set()
+        for f in fs:
+            if f.op in ("eq", "is") and ((is_anon(f.left, listener) and is_ft(f.right)) or (is_anon(f.right, listener) and is_ft(f.left))):
+                eqs.add(f.pos)
+            elif f.op == "truthy" and is_anon(f.left, listener):
+                avs.add(f.pos)
+            elif f.op == "truthy" and is_ft(f.left):
+                tvs.add(f.pos)
+            elif f.op in ("eq", "is") and f.pos:
+                for x, y in ((f.left, f.right), (f.right, f.left)):
+                    if isinstance(y, ast.Constant) and isinstance(y.value, bool):
+                        if is_anon(x, listener):
+                            avs.add(y.value)
+                        elif is_ft(x):
+                            tvs.add(y.value)
+        if len(eqs) > 1 or len(avs) > 1 or len(tvs) > 1:
+            return None         # the same (side-effect free) test taken both ways: not an execution
+        return (next(iter(eqs), None), next(iter(avs), None), next(iter(tvs), None))
+
+    def allowed(st) -> bool:
+        eq, a, t = st
+        if eq is False or (a is not None and t is not None and a != t):
+            return False
+        return eq is True or (a is not None and a == t)
+
+    paths = cfgn.paths()
+    for c in dl:
+        lexpr = arg(c, 0, "listener")
+        listener = _achain(nl, lexpr)
+        sites = set(cfgn.nodes_for(c))
+        facts = facts_at(cfgn, c)
+        st = state_of(_expand(nl, facts), listener)
+        ok = st is not None and allowed(st)
+        if not ok and listener is not None:
+            # the listeners were filtered when the iterated list was built: [l for l in ... if getattr(l, "anonymize", False) == from_tunnel]
+            d = [x for x in local_defs(nl, listener)]
+            if len(d) == 1 and isinstance(d[0][0], ast.For) and isinstance(d[0][0].target, ast.Name):
+                it0 = strip_cast(d[0][0].iter)
+                it = resolve(nl, it0)
+                if isinstance(it0, ast.Name) and _mutated(nl, it0.id):
+                    it = None
+                if isinstance(it, (ast.ListComp, ast.GeneratorExp, ast.SetComp)) and len(it.generators) == 1 \
+                        and isinstance(it.generators[0].target, ast.Name) and isinstance(it.elt, ast.Name) \
+                        and it.elt.id == it.generators[0].target.id and not it.generators[0].is_async:
+                    fs = [f for cond in it.generators[0].ifs for f in _atoms_with_polarity(cond, True)]
+                    st = state_of(fs, it.elt.id)
+                    ok = st is not None and allowed(st)
+        if not ok:
+            # no single dominating test: look at the tests taken on each path since the listener was (re)bound
+            seen_site = False
+            ok = True
+            for p in paths:
+                cur: list[Fact] = []
+                for node, lab in p:
+                    if node.kind == "loop":
+                        cur = []
+                    if node in sites:
+                        st = state_of(cur, listener)
+                        if st is None:
+                            break
+                        seen_site = True
+                        if not allowed(st):
+                            ok = False
+                    cur = cur + _edge_facts(nl, node, lab)
+            ok = ok and seen_site
+        ctx.check(ok, "delivery-filter", nl, c, "listener receives the packet only if listener.anonymize == from_tunnel",
+                  "tunnel-delivered packets reach plain overlays or socket packets reach anonymized overlays",
+                  [str(f) for f in facts])
+
+
+def _table_put(fi, c: ast.Call):
+    """(key, value) when the call is self.settings.update({k: v}) / self.settings.__setitem__(k, v), else None"""
+    if not (isinstance(c.func, ast.Attribute) and _achain(fi, c.func.value) == "self.settings") or c.keywords:
+        return None
+    if c.func.attr == "__setitem__" and len(c.args) == 2:
+        return c.args[0], c.args[1]
+    if c.func.attr == "update" and len(c.args) == 1:
+        d = resolve(fi, c.args[0])
+        if isinstance(d, ast.Dict) and len(d.keys) == 1 and d.keys[0] is not None:
+            return d.keys[0], d.values[0]
+    return None
+
+
+def rule_opt_in(ctx: Ctx) -> None:  # noqa: C901, PLR0912
     repo = ctx.repo
     init = repo.method("Community", "__init__", "ipv8/community.py")
     cfg = ctx.cfg(init)
-    sa_calls = ctx.anchor(calls(init, "self.endpoint.set_anonymity"), "set_anonymity in Community.__init__")
+    sa_calls = ctx.anchor([c for c in calls(init) if call_name(c) == "set_anonymity" and isinstance(c.func, ast.Attribute)
+                           and _achain(init, c.func.value) == "self.endpoint"], "set_anonymity in Community.__init__")
     for c in sa_calls:
-        facts = facts_at(cfg, c)
-        a0, a1 = arg(c, 0), arg(c, 1)
-        ok = chain(a0) == "self._prefix" and isinstance(a1, ast.Constant) and a1.value is True \
-            and any(f.op == "truthy" and f.pos and chain(f.left) in ("settings.anonymize", "self.anonymize") for f in facts)
+        facts = _expand(init, facts_at(cfg, c))
+        a0, a1 = arg(c, 0, "prefix"), arg(c, 1, "enable")
+        ok = _achain(init, a0) == "self._prefix" and _is_true(resolve(init, a1)) \
+            and any(f.op == "truthy" and f.pos and _achain(init, _unbool(f.left)) in ("settings.anonymize", "self.anonymize") for f in facts)
         ctx.check(ok, "opt-in", init, c, "Community opts in with set_anonymity(self._prefix, True) under settings.anonymize",
                   "an overlay that asked for anonymity is not registered with the tunnel endpoint for its own prefix")
     # every path with settings.anonymize and a TunnelEndpoint reaches the call
@@ -216,14 +736,14 @@ def rule_opt_in(ctx: Ctx) -> None:
     n = 0
     for m, fi, c in repo.callers_of_name("set_anonymity"):
         n += 1
-        a0, a1 = arg(c, 0), arg(c, 1)
-        if fi is not None and fi.qualname == "Community.__init__":
+        a0, a1 = arg(c, 0, "prefix"), arg(c, 1, "enable")
+        if fi is not None and fi.qualname == "Community.__init__" and c in sa_calls:
             continue
         if fi is not None and fi.module.relpath.startswith("ipv8/REST/"):
             # REST isolation endpoint is an operator action, listed as assumption
             continue
-        ok = fi is not None and fi.qualname == "TunnelCommunity.__init__" and chain(a0) == "self._prefix" \
-            and isinstance(a1, ast.Constant) and a1.value is False
+        ok = fi is not None and fi.qualname == "TunnelCommunity.__init__" and _achain(fi, a0) == "self._prefix" \
+            and _is_false(resolve(fi, a1))
         ctx.check(ok, "opt-in", fi or m.relpath, c, "only the tunnel overlay disables anonymity, for its own prefix",
                   "anonymity is switched off for a prefix other than the tunnel overlay's own")
     ctx.floor("opt-in", n, 1)
@@ -246,41 +766,104 @@ def rule_opt_in(ctx: Ctx) -> None:
             ctx.check(ok, "opt-in", fi, st, "anonymity table written only by set_anonymity", "anonymity table rewritten elsewhere")
         for c in calls(fi):
             ch = chain(c.func) or ""
-            if ch.startswith("self.settings.") and call_name(c) in ("pop", "clear", "update", "setdefault", "popitem"):
+            if ch.startswith("self.settings.") and call_name(c) in ("pop", "clear", "update", "setdefault", "popitem", "__setitem__", "__delitem__"):
+                if fi.name == "set_anonymity" and _table_put(fi, c) is not None:
+                    continue        # judged below: the one recording store of set_anonymity
                 ctx.check(False, "opt-in", fi, c, "no other mutation of the anonymity table", "anonymity table mutated outside set_anonymity")
+    # set_anonymity records the requested value under the prefix on every path, and does nothing else to the table
     sa = te.methods["set_anonymity"]
     ps = sa.params()
-    body = [s for s in sa.node.body if not (isinstance(s, ast.Expr) and isinstance(s.value, ast.Constant))]
-    ok = len(body) == 1 and isinstance(body[0], ast.Assign) and norm(body[0].targets[0]) == f"self.settings[{ps[1]}]" \
-        and norm(body[0].value) == ps[2]
+    cfgs = ctx.cfg(sa)
+    good = []
+    others = 0
+    fixed = not local_defs(sa, ps[1]) and not local_defs(sa, ps[2])
+    for st, t in stores(sa, ["self.settings[]", "self.settings"]):
+        v = getattr(st, "value", None)
+        if isinstance(st, (ast.Assign, ast.AnnAssign)) and isinstance(t, ast.Subscript) and _achain(sa, t.value) == "self.settings" \
+                and _achain(sa, t.slice) == ps[1] and _achain(sa, v) == ps[2] and fixed:
+            good.append(st)
+        else:
+            others += 1
+    for c in calls(sa):
+        kv = _table_put(sa, c)
+        if kv is not None:
+            if _achain(sa, kv[0]) == ps[1] and _achain(sa, kv[1]) == ps[2] and fixed:
+                good.append(enclosing_stmt(c))
+            else:
+                others += 1
+    nodes = [n for st in good for n in cfgs.nodes_for(st)]
+    # no normal completion that skips the store: cutting the store's normal out-edges must disconnect the exit
+    ok = bool(good) and others == 0 and cfgs.exit not in cfgs.reach(cut_out_normal=nodes)
     ctx.check(ok, "opt-in", sa, sa.node, "set_anonymity stores enable under the prefix", "set_anonymity does not record the requested switch")
     # delivery filter
-    nl = te.methods["notify_listeners"]
-    cfgn = ctx.cfg(nl)
-    dl = ctx.anchor([c for c in calls(nl) if call_name(c) == "_deliver_later"], "_deliver_later in TunnelEndpoint.notify_listeners")
-    for c in dl:
-        facts = facts_at(cfgn, c)
-        ok = False
-        for f in facts:
-            if f.op == "eq" and f.pos:
-                sides = [f.left, f.right]
-                g = [s for s in sides if isinstance(s, ast.Call) and chain(s.func) == "getattr" and len(s.args) == 3
-                     and const_value(s.args[1]) == "anonymize" and const_value(s.args[2]) is False
-                     and chain(s.args[0]) == chain(arg(c, 0))]
-                o = [s for s in sides if chain(s) == nl.params()[2]]
-                if g and o:
-                    ok = True
-        ctx.check(ok, "delivery-filter", nl, c, "listener receives the packet only if listener.anonymize == from_tunnel",
-                  "tunnel-delivered packets reach plain overlays or socket packets reach anonymized overlays",
-                  [str(f) for f in facts])
+    _delivery_filter(ctx, te.methods["notify_listeners"])
+
+
+def rule_exit_flags(ctx: Ctx) -> None:
+    """
+    find_circuits(exit_flags=[PEER_FLAG_EXIT_IPV8]) compares the requested flags with Circuit.exit_flags.  The traffic leaves the
+    circuit at its LAST hop, so "ending in an IPv8-capable exit" holds only if Circuit.exit_flags reads the flags of the last
+    element of the hop list; the flags of the first hop (`self.hop`) or of any other position describe a relay.
+    """
+    repo = ctx.repo
+    fi = repo.method("Circuit", "exit_flags", TUNNEL)
+    reads = [a for a in walk_no_nested(fi.node) if isinstance(a, ast.Attribute) and a.attr == "flags" and isinstance(a.ctx, ast.Load)]
+    ctx.anchor(reads, "read of <hop>.flags in Circuit.exit_flags")
+    hop_lists = ("self.hops", "self._hops")
+
+    def last_of(e) -> bool | None:
+        """True: last hop; False: recognisably another hop; None: unknown shape"""
+        e = resolve(fi, e)
+        if isinstance(e, (ast.IfExp, ast.BoolOp)):
+            # `hops[-1] if hops else None`, `hops and hops[-1]`: every alternative that is a hop must be the last one
+            alts = [e.body, e.orelse] if isinstance(e, ast.IfExp) else list(e.values)
+            vals = [last_of(x) for x in alts if not _is_none(x) and _achain(fi, x) not in hop_lists]
+            if not vals or any(v is None for v in vals):
+                return None
+            return all(vals)
+        if isinstance(e, ast.Subscript) and not isinstance(e.slice, ast.Slice) and _achain(fi, e.value) in hop_lists:
+            i = e.slice
+            if const_value(i) == -1:
+                return True
+            if isinstance(const_value(i), int):
+                return False
+            # hops[len(hops) - 1]
+            if isinstance(i, ast.BinOp) and isinstance(i.op, ast.Sub) and const_value(i.right) == 1 and isinstance(i.left, ast.Call) \
+                    and chain(i.left.func) == "len" and len(i.left.args) == 1 and _achain(fi, i.left.args[0]) in hop_lists:
+                return True
+            return None
+        c = _achain(fi, e)
+        if c in ("self.hop", "self.unverified_hop"):
+            return False
+        return None
+    n = 0
+    for a in reads:
+        v = last_of(a.value)
+        if v is None:
+            raise AnalysisError(f"undecided: which hop Circuit.exit_flags reads the flags of (`{ast.unparse(a)}`)")
+        n += 1
+        ctx.check(v, "exit-flags", fi, a, "Circuit.exit_flags reads the flags of the last hop (hops[-1])",
+                  "Circuit.exit_flags does not describe the last hop: find_circuits(exit_flags=[PEER_FLAG_EXIT_IPV8]) then selects "
+                  "circuits whose exit is not known to be IPv8-capable and TunnelEndpoint.send carries anonymized packets over them")
+    # some return hands these flags out
+    rets = [s for s in walk_no_nested(fi.node) if isinstance(s, ast.Return) and s.value is not None
+            and any(isinstance(x, ast.Attribute) and x.attr == "flags" for x in ast.walk(resolve(fi, s.value)))]
+    ctx.check(bool(rets), "exit-flags", fi, fi.node, "Circuit.exit_flags returns the flags it read",
+              "Circuit.exit_flags never returns the flags of a hop")
+    ctx.floor("exit-flags", n, 1)
 
 
 def run(ctx: Ctx) -> None:
-    rule_send(ctx)
-    rule_queue(ctx)
-    rule_who(ctx)
-    rule_opt_in(ctx)
-    ctx.assume("exit_flags recorded on a circuit describe its last hop (set when the circuit is created; C08 covers hop selection)")
+    # "analysis does not apply" (exit 2) in one rule must not hide a violation that another rule can still report
+    pending = None
+    for rule in (rule_send, rule_queue, rule_who, rule_opt_in, rule_exit_flags):
+        try:
+            rule(ctx)
+        except AnalysisError as e:
+            pending = pending or e
+    if pending is not None and not ctx.findings:
+        raise pending
+    ctx.assume("the flags recorded on a hop are the ones the peer advertised when the hop was chosen (C08 covers hop selection)")
     ctx.assume("REST isolation endpoint calls to set_anonymity are operator actions, not overlay traffic")
 
 
@@ -300,11 +883,27 @@ WITNESSES = [
      "new": "circuits = tunnel_community.find_circuits(exit_flags=[PEER_FLAG_EXIT_IPV8], state=None)"},
     {"name": "prefix taken from 2 bytes", "file": EP, "rule": "send-classification",
      "old": "        prefix = packet[:22]\n        if not self.settings.get", "new": "        prefix = packet[:2]\n        if not self.settings.get"},
+    {"name": "raw send decided by membership only", "file": EP, "rule": "send-classification",
+     "old": "if not self.settings.get(prefix, False):", "new": "if prefix in self.settings:"},
+    {"name": "raw send when the prefix is registered", "file": EP, "rule": "send-classification",
+     "old": "if not self.settings.get(prefix, False):", "new": "if prefix in self.settings or not self.settings.get(prefix, False):"},
+    {"name": "circuit swapped after the ready test", "file": EP, "rule": "send-classification",
+     "old": "            circuit_id = circuit.circuit_id\n",
+     "new": "            circuit = tunnel_community.find_circuits(exit_flags=[PEER_FLAG_EXIT_IPV8], hops=self.hops, state=None)[-1]\n            circuit_id = circuit.circuit_id\n"},
+    {"name": "packet rebound before the switch", "file": EP, "rule": "send-classification",
+     "old": "        prefix = packet[:22]\n        if not self.settings.get",
+     "new": "        prefix = packet[:22]\n        packet = packet[1:]\n        if not self.settings.get"},
     {"name": "unbounded queue", "file": EP, "rule": "bounded-queue",
      "old": "deque(maxlen=100)", "new": "deque()"},
     {"name": "second raw sender in TunnelEndpoint", "file": EP, "rule": "raw-send",
      "old": "    def set_anonymity(self, prefix: bytes, enable: bool) -> None:",
      "new": "    def flush(self) -> None:\n        while self.send_queue:\n            self.endpoint.send(*self.send_queue.popleft())\n\n    def set_anonymity(self, prefix: bytes, enable: bool) -> None:"},
+    {"name": "private raw helper called before the switch", "file": EP, "rule": "send-classification",
+     "edits": [
+         {"file": EP, "old": "    def set_anonymity(self, prefix: bytes, enable: bool) -> None:",
+          "new": "    def _passthrough(self, address: Address, packet: bytes) -> None:\n        def _noop() -> None:\n            return None\n        self.endpoint.send(address, packet)\n\n    def set_anonymity(self, prefix: bytes, enable: bool) -> None:"},
+         {"file": EP, "old": "        prefix = packet[:22]\n        if not self.settings.get",
+          "new": "        prefix = packet[:22]\n        self._passthrough(address, packet)\n        if not self.settings.get"}]},
     {"name": "community reaches under the wrapper", "file": "ipv8/community.py", "rule": "raw-send",
      "old": "        packet = self.create_introduction_request(address, new_style=self.network.is_new_style(address))\n        self.endpoint.send(address, packet)",
      "new": "        packet = self.create_introduction_request(address, new_style=self.network.is_new_style(address))\n        getattr(self.endpoint, \"endpoint\", self.endpoint).send(address, packet) if False else self.endpoint.endpoint.send(address, packet)"},
@@ -312,7 +911,11 @@ WITNESSES = [
      "old": "self.endpoint.set_anonymity(self._prefix, True)", "new": "self.endpoint.set_anonymity(self._prefix, False)"},
     {"name": "set_anonymity ignores enable", "file": EP, "rule": "opt-in",
      "old": "        self.settings[prefix] = enable", "new": "        self.settings[prefix] = enable and bool(self.tunnel_community)"},
+    {"name": "set_anonymity records only while a tunnel community is attached", "file": EP, "rule": "opt-in",
+     "old": "        self.settings[prefix] = enable", "new": "        if self.tunnel_community is not None:\n            self.settings[prefix] = enable"},
     {"name": "delivery filter inverted for plain overlays", "file": EP, "rule": "delivery-filter",
      "old": "            if getattr(listener, \"anonymize\", False) != from_tunnel:\n                continue\n",
      "new": "            if getattr(listener, \"anonymize\", False) and not from_tunnel:\n                continue\n"},
+    {"name": "exit flags of the first hop", "file": TUNNEL, "rule": "exit-flags",
+     "old": "            return self.hops[-1].flags or []", "new": "            return self.hops[0].flags or []"},
 ]
